@@ -8,6 +8,7 @@ RouteController. After every event the module graph is compared with refRoutes (
 """
 import collections
 import errno
+import hashlib
 import importlib.util
 import json
 import logging
@@ -210,6 +211,43 @@ class World:
                 _, p, nh = ev
                 self.kernel[tuple(p)] = nh
                 self.rc._netlink_route_handler(None, self.route_msg("RTM_NEWROUTE", tuple(p), nh))
+            elif kind == "newroute~neigh":
+                # two threads: the route thread handles RTM_NEWROUTE for a route through a next hop the kernel has not resolved
+                # yet; right after it has read the neighbour table the kernel resolves the next hop and the neighbour thread
+                # gets RTM_NEWNEIGH. The neighbour handler runs at the first moment the controller's lock is free: at once if
+                # the route thread does not hold it at that point, otherwise when the route handler has released it.
+                _, p, nh = ev
+                self.kernel[tuple(p)] = nh
+                mac = NEXT_HOPS[nh][1]
+                st = {"fired": False, "deferred": False}
+                real_dump = self.ndb.neighbours.dump
+
+                def deliver():
+                    self.resolved.add(nh)
+                    self.rc._netlink_neighbor_handler(None, {"event": "RTM_NEWNEIGH", "attrs": [("NDA_DST", nh), ("NDA_LLADDR", mac)]})
+
+                def dump():
+                    snap = real_dump()
+                    if not st["fired"]:
+                        st["fired"] = True
+                        self.visible.add(nh)
+                        self.ndb._neigh.append({"dst": nh, "lladdr": mac})
+                        if self.rc._lock.locked():
+                            st["deferred"] = True
+                        else:
+                            deliver()
+                    return snap
+                self.ndb.neighbours.dump = dump
+                try:
+                    self.rc._netlink_route_handler(None, self.route_msg("RTM_NEWROUTE", tuple(p), nh))
+                finally:
+                    self.ndb.neighbours.dump = real_dump
+                if not st["fired"]:
+                    self.visible.add(nh)
+                    self.ndb._neigh.append({"dst": nh, "lladdr": mac})
+                    deliver()
+                elif st["deferred"]:
+                    deliver()
             elif kind == "delroute":
                 _, p = ev
                 nh = self.kernel.pop(tuple(p))
@@ -244,6 +282,9 @@ class World:
             else:
                 for nh in nhs:
                     evs.append(("newroute", list(p), nh))
+                for nh in nhs:
+                    if nh not in self.visible and nh not in self.resolved:
+                        evs.append(("newroute~neigh", list(p), nh))
         return evs
 
     def key(self):
@@ -322,53 +363,77 @@ def label(ev):
     return ev[0]
 
 
-def explore(mod, depth):
+def explore(mod, depth, pool=None):
     res = dict(evaluations=0, states=0, transitions=0, distinct=0, traces=0, samples=[], findings=[], exhaustive=True, extra={}, outcomes={},
-               rule="BFS over all kernel-consistent event sequences (RTM_NEWROUTE for a prefix the kernel lacks, RTM_DELROUTE for one it has, RTM_NEWNEIGH for an unresolved next hop) over "
+               rule="BFS over all kernel-consistent event sequences (RTM_NEWROUTE for a prefix the kernel lacks, RTM_DELROUTE for one it has, RTM_NEWNEIGH for an unresolved next hop, and RTM_NEWROUTE with the next hop's resolution arriving on a second thread right after the route thread's neighbour dump) over "
                     "2 interfaces, %d next hops (two sharing a MAC) and %d prefixes to depth %d; state = kernel table, neighbour table, the controller's three caches and the fake BESS module graph; "
                     "refRoutes evaluated after every event. distinct_nontrivial = distinct states" % (len(universe()[0]), len(universe()[1]), depth),
                assumptions=["fake pybess: create of an existing module = EEXIST, connect of a busy ogate = EBUSY, destroy/delete of a missing module/route = ENOENT, route add = upsert",
-                            "RTM_NEWNEIGH also makes the neighbour visible in NDB, as the kernel would; time.sleep inside the module is a no-op"])
+                            "RTM_NEWNEIGH also makes the neighbour visible in NDB, as the kernel would; time.sleep inside the module is a no-op",
+                            "newroute~neigh: the route handler and the neighbour handler run on two threads (the controller's lock exists for that) with one preemption point, right after the route "
+                            "thread's neighbour-table dump; the neighbour handler runs as soon as the controller's lock is free"])
     sigs = set()
     w0 = build(mod, [])
-    seen = {w0.key()}
-    frontier = collections.deque([[]])
+    seen = {_h(w0.key())}
+    frontier = [[]]
     res["states"] = 1
     maxd = 0
-    while frontier:
-        hist = frontier.popleft()
-        if len(hist) >= depth:
-            continue
+    # level-synchronous breadth-first search: the successors of a whole level are computed by the worker processes (each
+    # successor = a fresh controller, the history replayed, one more event), the parent keeps the one seen-set and the
+    # frontier, in frontier order, so that the result does not depend on the number of workers
+    for level in range(depth):
+        if not frontier:
+            break
         if time.time() > DEADLINE:
             res["exhaustive"] = False
             res["extra"]["deadline_hit"] = True
             break
-        for ev in build(mod, hist).enabled():
-            h2 = hist + [ev]
-            w = build(mod, h2)
-            res["transitions"] += 1
-            res["traces"] += len(h2)
-            res["evaluations"] += 1
-            k = w.key()
-            if k in seen:
-                continue
-            seen.add(k)
-            res["states"] += 1
-            maxd = max(maxd, len(h2))
-            v = w.check()
-            if v:
-                # a state that deviates is terminal: its successors would only repeat the finding
-                sig = "c20:%s:after=%s" % (v[0], label(ev))
-                res["outcomes"][v[0]] = res["outcomes"].get(v[0], 0) + 1
-                if sig not in sigs:
-                    sigs.add(sig)
-                    res["findings"].append(dict(sig=sig, desc="%s (history: %s)" % (v[1], json.dumps(h2)), replay=dict(history=h2)))
-                continue
-            frontier.append(h2)
+        if pool is not None:
+            expanded = pool.imap(_expand, frontier, chunksize=32)
+        else:
+            expanded = (_expand(h) for h in frontier)
+        nxt = []
+        for hist, succ in zip(frontier, expanded):
+            for ev, k, v in succ:
+                h2 = hist + [ev]
+                res["transitions"] += 1
+                res["traces"] += len(h2)
+                res["evaluations"] += 1
+                if k in seen:
+                    continue
+                seen.add(k)
+                res["states"] += 1
+                maxd = max(maxd, len(h2))
+                if v:
+                    # a state that deviates is terminal: its successors would only repeat the finding
+                    sig = "c20:%s:after=%s" % (v[0], label(ev))
+                    res["outcomes"][v[0]] = res["outcomes"].get(v[0], 0) + 1
+                    if sig not in sigs:
+                        sigs.add(sig)
+                        res["findings"].append(dict(sig=sig, desc="%s (history: %s)" % (v[1], json.dumps(h2)), replay=dict(history=h2)))
+                    continue
+                nxt.append(h2)
+        frontier = nxt
     res["distinct"] = res["states"]
     res["extra"]["max_depth"] = maxd
     res["samples"] = [dict(history=[["newroute", ["10.1.0.0", 16], "10.0.0.1"], ["newroute", ["10.2.0.0", 16], "10.0.0.1"], ["newneigh", "10.0.0.1"], ["delroute", ["10.1.0.0", 16]]])]
     return res
+
+
+_MOD = None
+
+
+def _h(key):
+    return hashlib.sha1(key.encode()).digest()[:12]
+
+
+def _expand(hist):
+    """successors of one state: (event, hash of the canonical key, deviation or None)"""
+    out = []
+    for ev in build(_MOD, hist).enabled():
+        w = build(_MOD, hist + [ev])
+        out.append((ev, _h(w.key()), w.check()))
+    return out
 
 
 def main():
@@ -381,7 +446,17 @@ def main():
         if v:
             res["findings"].append(dict(sig="c20:%s:after=%s" % (v[0], case["history"][-1][0]), desc=v[1], replay=case))
     else:
-        res = explore(mod, 7 if TIER == "quick" else 9)
+        depth = 7 if TIER == "quick" else 9
+        nproc = max(1, min(16, int(os.environ.get("VERIF_NPROC", "1"))))
+        global _MOD
+        _MOD = mod
+        if nproc == 1:
+            res = explore(mod, depth)
+        else:
+            import multiprocessing
+            with multiprocessing.get_context("fork").Pool(nproc) as pool:
+                res = explore(mod, depth, pool)
+        res["extra"]["worker_processes"] = nproc
     if OUT:
         json.dump(res, open(OUT, "w"))
     else:
